@@ -190,6 +190,17 @@ CHECKS = {
             "identical diagnostics twice in-process and under a different std hash seed.",
             "Rendered types are mapped to value classes by denotes() in py/checks/c17.py; renderings it does not know are counted, not judged.",
             "DESIGN.md#c17"),
+    "C18": ("exploration",
+            "bounded-exhaustive programs x enumerated instrumentation configurations (every ProfileMode, hooks, EVERY subset of marker lines as breakpoints, all stepping modes); self-differential against the plain run + hit counts derived from the plain transcript",
+            "Every control-flow skeleton of <=3 (quick: every second) / 4 statements at module level and in a def, plus call/"
+            "recursion/closure/failure programs, one statement per line with markers that print [line, value], is run plain, "
+            "with GC at every safepoint, under each of the 13 ProfileModes, with no-op and recording statement hooks, and under "
+            "the debug adapter with EVERY subset of the marker lines as breakpoints (continuing at each stop), stepping "
+            "into/over/out, and conditional breakpoints. Transcript, result and error must equal the plain run; stops per line == "
+            "executions of that line; locals and evaluate() at a stop == the value the marker prints; no stop without a "
+            "breakpoint; no hang (10 s watchdog).",
+            "Known finding: module-level statements stop twice (the repository's own tests encode it).",
+            "DESIGN.md#c18"),
 }
 
 NOT_YET = {
